@@ -7,6 +7,8 @@ import (
 	"math/big"
 	"strings"
 
+	"github.com/foxboron/go-uefi/authenticode"
+
 	"verif/internal/keys"
 	"verif/internal/mon"
 	"verif/internal/refp7"
@@ -211,6 +213,60 @@ func checkC02(r *mon.Run) {
 					s4.sig.Prim = signAttrsWith(b.cs.TwinKey, attrsContent(s4.attrs))
 					c02Judge(r, b.name, "tamper+resigned-by-twin-key", "certtable", embedSigs(tampered, t4.root.Encode()), certs, "")
 				}
+			}
+		}
+		// (f) one parsed object asked about several certificates in turn, and objects that stay
+		//     alive while other images are parsed: every answer must stand on its own
+		for _, order := range [][]int{{0, 2, 1}, {2, 0, 2, 1}} {
+			var asked []string
+			tryP(func() {
+				bin, err := authenticode.Parse(bytes.NewReader(b.out))
+				if err != nil {
+					return
+				}
+				for _, ci := range order {
+					asked = append(asked, certs[ci].kind)
+					ok, _ := bin.Verify(certs[ci].c)
+					r.Eval(1)
+					r.Count("same_object_sequence_verifications", 1)
+					if okr, why := refImageVerify(b.out, certs[ci].c); ok && !okr {
+						r.Violation("C02|same-object-sequence|cert="+certs[ci].kind, fmt.Sprintf("one parsed image asked %v in turn: Verify reported success for the %s certificate, but: %s (base %s)", asked, certs[ci].kind, why, b.name),
+							map[string]any{"image_hex": mon.HexN(b.out, 80000), "order": asked})
+						return
+					}
+				}
+			})
+		}
+		for k := 0; k < r.N(12, 80); k++ {
+			rg := mon.Rand(r.Seed, "C02", "interleave", bi, k)
+			tam := append([]byte(nil), b.out...)
+			// a covered byte, preferably in the data behind the last section
+			p := int(im.CertVA) - 1 - rg.Intn(min2(int(im.CertVA)-1, 40))
+			if k%3 == 0 {
+				p = rg.Intn(int(im.CertVA))
+			}
+			if p < 0 || p >= len(cov) || !cov[p] {
+				continue
+			}
+			tam[p] ^= byte(1 + rg.Intn(255))
+			var ok bool
+			tryP(func() {
+				t1, err := authenticode.Parse(bytes.NewReader(tam))
+				if err != nil {
+					return
+				}
+				// other images are parsed (and verified) while the first object is still in use
+				g, err := authenticode.Parse(bytes.NewReader(b.out))
+				if err == nil {
+					g.Verify(certs[0].c)
+				}
+				ok, _ = t1.Verify(certs[0].c)
+			})
+			r.Eval(1)
+			r.Count("interleaved_object_verifications", 1)
+			if okr, why := refImageVerify(tam, certs[0].c); ok && !okr {
+				r.Violation("C02|interleaved-objects|"+regionKind(im, p, len(b.out)), fmt.Sprintf("a tampered image (byte %d) parsed before the genuine one verified afterwards: %s (base %s)", p, why, b.name),
+					map[string]any{"image_hex": mon.HexN(tam, 80000), "pos": p})
 			}
 		}
 		// (e) the untouched image with the wrong certificates
